@@ -108,6 +108,13 @@ def case_st(draw):
                     thr = -1            # documented: negative threshold disables the fake RSSI
                 args = [str(draw(base)), str(thr)]
             steps.append({"op": "cmd", "t": r, "verb": verb, "args": args})
+            if verb.startswith("FAKE_") and len(args) == 2 and draw(st.integers(0, 2)) == 0:
+                # ... followed by the relative form (or, for RSSI, the disabling form) and a burst that shows the effect
+                if verb == "FAKE_RSSI" and draw(st.booleans()):
+                    steps.append({"op": "cmd", "t": r, "verb": verb, "args": [args[0], "-1"]})
+                else:
+                    steps.append({"op": "cmd", "t": r, "verb": verb, "args": [str(draw(st.integers(-6, 6)))]})
+                steps.append({"op": "burst", "b": draw(burst_st()), "fn": draw(S.fn()), "tn": draw(st.integers(0, 7)), "pwr": draw(st.integers(0, 20))})
     return {"cfg": cfg, "sender": sender, "vers": draw(st.lists(st.sampled_from([0, 1]), min_size=n, max_size=n)),
             "rseed": draw(st.integers(0, 2 ** 31)), "steps": steps}
 
